@@ -43,7 +43,7 @@ type gen struct {
 
 func newGenWorld(r *hk.Run) *gen {
 	w := newWorld()
-	g := &gen{r: r, w: w, byID: map[int]*gclaim{}, nextID: 1, now: time.Now().Unix()}
+	g := &gen{r: r, w: w, byID: map[int]*gclaim{}, nextID: 1, now: time.Now().UnixNano()}
 	g.ex = func(ws []string) string { return hk.Guard(func() string { return w.exec(ws) }) }
 	return g
 }
@@ -59,15 +59,33 @@ func (g *gen) op(line string) string {
 
 func (g *gen) pn(p int) { g.op(fmt.Sprintf("pn %d", p)) }
 
+// sec: the generator's times are nanoseconds since the epoch (0 = the zero time)
+const sec = int64(1000000000)
+
+func goTime(t int64) time.Time { return time.Unix(t/sec, t%sec).UTC() }
+
+// tArg spells a time the way the protocol wants it: z | <seconds>[.<fraction without trailing zeros>]
 func tArg(t int64) string {
 	if t == 0 {
 		return "z"
 	}
-	return strconv.FormatInt(t, 10)
+	s := strconv.FormatInt(t/sec, 10)
+	if ns := t % sec; ns != 0 {
+		s += "." + strings.TrimRight(fmt.Sprintf("%09d", ns), "0")
+	}
+	return s
 }
 
-// claim delivers an attribute claim and returns it (nil if the implementation refused it)
-func (g *gen) claim(p, s int, kind, attr, val string, date int64) *gclaim {
+// claim delivers an attribute claim dated at a whole second
+func (g *gen) claim(p, s int, kind, attr, val string, dateSec int64) *gclaim {
+	return g.claimNs(p, s, kind, attr, val, dateSec*sec)
+}
+
+// del delivers a delete claim dated at a whole second
+func (g *gen) del(tgt string, s int, dateSec int64) *gclaim { return g.delNs(tgt, s, dateSec*sec) }
+
+// claimNs delivers an attribute claim and returns it (nil if the implementation refused it)
+func (g *gen) claimNs(p, s int, kind, attr, val string, date int64) *gclaim {
 	var b *schema.Builder
 	switch kind {
 	case "set":
@@ -77,14 +95,14 @@ func (g *gen) claim(p, s int, kind, attr, val string, date int64) *gclaim {
 	default:
 		b = schema.NewDelAttributeClaim(g.w.pn[p], attr, val)
 	}
-	b.SetClaimDate(time.Unix(date, 0).UTC())
+	b.SetClaimDate(goTime(date))
 	tb, err := signBlob(g.w.ss[s], g.w.pubs, b)
 	if err != nil {
 		panic(err)
 	}
 	c := &gclaim{id: g.nextID, p: p, s: s, kind: kind, attr: attr, val: val, date: date, rk: refKey(tb.BlobRef())}
 	g.nextID++
-	out := g.op(fmt.Sprintf("claim %d %d %d %s %s %s %d %d", c.id, p, s, kind, hk.Hex([]byte(attr)), hk.Hex([]byte(val)), date, c.rk))
+	out := g.op(fmt.Sprintf("claim %d %d %d %s %s %s %s %d", c.id, p, s, kind, hk.Hex([]byte(attr)), hk.Hex([]byte(val)), tArg(date), c.rk))
 	if out != "ok" {
 		return nil
 	}
@@ -126,14 +144,14 @@ func (g *gen) noteArrival(c *gclaim) {
 	}
 }
 
-// del delivers a delete claim targeting tgt ("c<id>" or "p<p>")
-func (g *gen) del(tgt string, s int, date int64) *gclaim {
+// delNs delivers a delete claim targeting tgt ("c<id>" or "p<p>")
+func (g *gen) delNs(tgt string, s int, date int64) *gclaim {
 	ref, pn, ok := g.w.target(tgt)
 	if !ok {
 		panic("bad target " + tgt)
 	}
 	b := schema.NewDeleteClaim(ref)
-	b.SetClaimDate(time.Unix(date, 0).UTC())
+	b.SetClaimDate(goTime(date))
 	tb, err := signBlob(g.w.ss[s], g.w.pubs, b)
 	if err != nil {
 		panic(err)
@@ -143,7 +161,7 @@ func (g *gen) del(tgt string, s int, date int64) *gclaim {
 		c.tgtID, _ = strconv.Atoi(tgt[1:])
 	}
 	g.nextID++
-	out := g.op(fmt.Sprintf("delete %d %s %d %d %d", c.id, tgt, s, date, c.rk))
+	out := g.op(fmt.Sprintf("delete %d %s %d %s %d", c.id, tgt, s, tArg(date), c.rk))
 	if out != "ok" {
 		return nil
 	}
@@ -324,14 +342,15 @@ func (g *gen) check(kind, mode string, p int, attr string, t int64, f string, ob
 	sig := kind + "-differs-" + mode
 	if mode != "idx" && sawDel && kind != "describe" {
 		// does the answer equal the fold that ignores deletions of attribute claims?
+		// (the corpus keeps equal dates in blobref order: fold exactly that arrangement)
 		csAll, _ := g.relevant(p, attr, t, f, true)
-		if all, _, ok := linearise(csAll); ok {
-			for _, vs := range all {
-				if proj(vs) == observed {
-					sig = "corpus-attr-query-ignores-claim-deletion"
-					break
-				}
-			}
+		sort.SliceStable(csAll, func(i, j int) bool { return claimBefore(csAll[i], csAll[j]) })
+		var vs []string
+		for _, c := range csAll {
+			vs = specStep(vs, c)
+		}
+		if proj(vs) == observed {
+			sig = "corpus-attr-query-ignores-claim-deletion"
 		}
 	}
 	r.Fail(sig, fmt.Sprintf("%s: permanode %d attr %q T=%s filter=%s", line, p, attr, tArg(t), f),
@@ -348,22 +367,79 @@ func first(vs []string) string {
 var corpusModes = []string{"inc", "load"}
 var allModes = []string{"idx", "inc", "load"}
 
-func (g *gen) qAttr(mode string, p int, attr string, t int64, f string) {
+func (g *gen) qAttr(mode string, p int, attr string, t int64, f string) string {
 	line := fmt.Sprintf("attr %s %d %s %s %s", mode, p, hk.Hex([]byte(attr)), tArg(t), f)
 	out := g.op(line)
 	g.check("attr", mode, p, attr, t, f, out, first, line)
+	return out
 }
 
-func (g *gen) qVals(mode string, p int, attr string, t int64, f string) {
+// sameAnswer: since 83d40e9 the claim order is total (date, then blobref), so paths that fold the same
+// claims must give the SAME answer, equal dates or not – not merely each an allowed one.
+func (g *gen) sameAnswer(what, detail string, outs map[string]string, modes ...string) {
+	if g.r == nil {
+		return
+	}
+	for _, m := range modes[1:] {
+		if outs[m] != outs[modes[0]] {
+			g.r.Fail(what+"-paths-disagree", detail, modes[0]+": "+outs[modes[0]], m+": "+outs[m], append([]string(nil), g.ops...))
+			return
+		}
+	}
+}
+
+func (g *gen) qAttrAll(p int, attr string, t int64, f string) {
+	outs := map[string]string{}
+	for _, m := range allModes {
+		outs[m] = g.qAttr(m, p, attr, t, f)
+	}
+	g.sameAnswer("corpus-attr", fmt.Sprintf("attr p%d %q T=%s f=%s", p, attr, tArg(t), f), outs, "inc", "load")
+}
+
+func (g *gen) qValsAll(p int, attr string, t int64, f string) {
+	outs := map[string]string{}
+	for _, m := range corpusModes {
+		outs[m] = g.qVals(m, p, attr, t, f)
+	}
+	g.sameAnswer("corpus-vals", fmt.Sprintf("vals p%d %q T=%s f=%s", p, attr, tArg(t), f), outs, "inc", "load")
+}
+
+func (g *gen) qHasAll(p int, attr, val string, t int64) {
+	outs := map[string]string{}
+	for _, m := range corpusModes {
+		outs[m] = g.qHas(m, p, attr, val, t)
+	}
+	g.sameAnswer("corpus-has", fmt.Sprintf("has p%d %q %q T=%s", p, attr, val, tArg(t)), outs, "inc", "load")
+}
+
+func (g *gen) qDescAll(p int, attr string, t int64, s int) {
+	outs := map[string]string{}
+	for _, m := range allModes {
+		outs[m] = g.qDesc(m, p, attr, t, s)
+	}
+	g.sameAnswer("describe", fmt.Sprintf("desc p%d %q T=%s owner=%d", p, attr, tArg(t), s), outs, "idx", "inc", "load")
+}
+
+func (g *gen) qVals(mode string, p int, attr string, t int64, f string) string {
 	line := fmt.Sprintf("vals %s %d %s %s %s", mode, p, hk.Hex([]byte(attr)), tArg(t), f)
 	out := g.op(line)
 	g.check("vals", mode, p, attr, t, f, out, showStrs, line)
+	return out
 }
 
-func (g *gen) qHas(mode string, p int, attr, val string, t int64) {
+func (g *gen) qHas(mode string, p int, attr, val string, t int64) string {
 	line := fmt.Sprintf("has %s %d %s %s %s", mode, p, hk.Hex([]byte(attr)), hk.Hex([]byte(val)), tArg(t))
 	out := g.op(line)
 	g.check("has", mode, p, attr, t, "a", out, func(vs []string) string { return b2s(contains(vs, val)) }, line)
+	return out
+}
+
+// claimBefore: the documented order of a permanode's claims since 83d40e9: by date, equal dates by blobref
+func claimBefore(a, b *gclaim) bool {
+	if a.date != b.date {
+		return a.date < b.date
+	}
+	return a.rk < b.rk
 }
 
 // normalise: Describe presents an attribute as a set of non-empty values (first occurrence kept)
@@ -379,18 +455,19 @@ func normalise(vs []string) []string {
 
 // qDesc: search.Handler.Describe of the permanode by owner s; the zero time means all claims here
 // (DescribeRequest.At), so the oracle uses the largest time for it.
-func (g *gen) qDesc(mode string, p int, attr string, t int64, s int) {
+func (g *gen) qDesc(mode string, p int, attr string, t int64, s int) string {
 	line := fmt.Sprintf("desc %s %d %s %s %d", mode, p, hk.Hex([]byte(attr)), tArg(t), s)
 	out := g.op(line)
 	if g.r == nil {
-		return
+		return out
 	}
 	g.r.Hit("describe:" + mode)
 	ot := t
 	if t == 0 {
-		ot = MaxTime
+		ot = MaxTime * sec
 	}
 	g.check("describe", mode, p, attr, ot, strconv.Itoa(s), out, func(vs []string) string { return showStrs(normalise(vs)) }, line)
+	return out
 }
 
 // qVia observes which source the corpus uses; the cache may only be used when no claim row of the
@@ -449,7 +526,7 @@ func (g *gen) qClaims(mode string, p int, f string, attr string) {
 		}
 	}
 	got := map[int]bool{}
-	var dates []int64
+	var dates []*gclaim
 	okSet := true
 	if out != "-" {
 		for _, w := range strings.Fields(out) {
@@ -459,15 +536,15 @@ func (g *gen) qClaims(mode string, p int, f string, attr string) {
 				break
 			}
 			got[id] = true
-			dates = append(dates, g.byID[id].date)
+			dates = append(dates, g.byID[id])
 		}
 	}
 	if !okSet || len(got) != len(want) {
 		g.r.Fail("appendclaims-set-"+mode, line, fmt.Sprint(len(want))+" claims", out, append([]string(nil), g.ops...))
 		return
 	}
-	if mode != "idx" && !sort.SliceIsSorted(dates, func(i, j int) bool { return dates[i] < dates[j] }) {
-		g.r.Fail("appendclaims-order-"+mode, line, "date order", out, append([]string(nil), g.ops...))
+	if mode != "idx" && !sort.SliceIsSorted(dates, func(i, j int) bool { return claimBefore(dates[i], dates[j]) }) {
+		g.r.Fail("appendclaims-order-"+mode, line, "date order, equal dates by blobref", out, append([]string(nil), g.ops...))
 	}
 }
 
@@ -483,7 +560,7 @@ func (g *gen) qOrder(mode string, p int) {
 			n++
 		}
 	}
-	var dates []int64
+	var dates []*gclaim
 	seen := map[int]bool{}
 	ok := true
 	if out != "-" {
@@ -495,15 +572,15 @@ func (g *gen) qOrder(mode string, p int) {
 				break
 			}
 			seen[id] = true
-			dates = append(dates, c.date)
+			dates = append(dates, c)
 		}
 	}
 	if !ok || len(seen) != n {
 		g.r.Fail("corpus-claims-set-"+mode, line, fmt.Sprint(n)+" claim rows", out, append([]string(nil), g.ops...))
 		return
 	}
-	if !sort.SliceIsSorted(dates, func(i, j int) bool { return dates[i] < dates[j] }) {
-		g.r.Fail("corpus-claims-unsorted-"+mode, line, "date order", out, append([]string(nil), g.ops...))
+	if !sort.SliceIsSorted(dates, func(i, j int) bool { return claimBefore(dates[i], dates[j]) }) {
+		g.r.Fail("corpus-claims-unsorted-"+mode, line, "date order, equal dates by blobref", out, append([]string(nil), g.ops...))
 	}
 }
 
@@ -515,7 +592,7 @@ func (g *gen) qLocation(p int, t int64, f string) {
 	}
 	at := time.Time{}
 	if t != 0 {
-		at = time.Unix(t, 0).UTC()
+		at = goTime(t)
 	}
 	got := hk.Guard(func() string { return g.w.location(p, at, f) })
 	g.r.ImplOnly("location-idx")
